@@ -33,7 +33,70 @@ func Graft(img []byte, tag string, data []byte) (out []byte, ok bool) {
 		binary.BigEndian.PutUint32(out[t.DirEntry+12:], uint32(len(data)))
 		return out, true
 	}
-	return img, false
+	// the font has no such table: insert a directory record (kept sorted by tag) and move
+	// every table body 16 bytes further
+	n := len(tabs)
+	if 12+16*n > len(img) {
+		return img, false
+	}
+	out = make([]byte, 0, len(img)+16+len(data)+8)
+	out = append(out, img[:12]...)
+	binary.BigEndian.PutUint16(out[4:], uint16(n+1))
+	inserted := false
+	newRec := func() {
+		rec := make([]byte, 16)
+		copy(rec, tag)
+		out = append(out, rec...) // offset and length patched below
+	}
+	at := -1
+	for i, t := range tabs {
+		if !inserted && t.Tag > tag {
+			at = len(out)
+			newRec()
+			inserted = true
+		}
+		rec := append([]byte(nil), img[12+16*i:12+16*i+16]...)
+		binary.BigEndian.PutUint32(rec[8:], uint32(t.Offset+16))
+		out = append(out, rec...)
+	}
+	if !inserted {
+		at = len(out)
+		newRec()
+	}
+	out = append(out, img[12+16*n:]...)
+	for len(out)%4 != 0 {
+		out = append(out, 0)
+	}
+	binary.BigEndian.PutUint32(out[at+8:], uint32(len(out)))
+	binary.BigEndian.PutUint32(out[at+12:], uint32(len(data)))
+	out = append(out, data...)
+	for len(out)%4 != 0 {
+		out = append(out, 0)
+	}
+	return out, true
+}
+
+// SynthKerx0Tuple builds a 'kerx' table with one format 0 subtable that carries tuples (variable
+// fonts): the pair values are then offsets into the subtable, here beyond 0x7FFF.
+func SynthKerx0Tuple(left, right int, value uint16, size int) []byte {
+	var w wbuf
+	w.u16(3, 0)
+	w.u32(1)
+	if size < 48 {
+		size = 48
+	}
+	w.u32(uint32(size)) // subtable length
+	w.u32(0)            // coverage: format 0
+	w.u32(1)            // tupleCount
+	w.u32(1)            // nPairs
+	w.u32(6)
+	w.u32(0)
+	w.u32(0)
+	w.u16(left, right, int(value))
+	for w.len() < 8+size {
+		w.b = append(w.b, 0x01)
+	}
+	return w.b
 }
 
 type wbuf struct{ b []byte }
